@@ -22,6 +22,7 @@ import DSymVerif.Proofs.CoversMonitors
 import DSymVerif.Proofs.CoversWired
 import DSymVerif.Proofs.CoversIso
 import DSymVerif.Proofs.CoversComplete
+import DSymVerif.Proofs.CoversUniversal
 import DSymVerif.Proofs.DSetExamples
 
 namespace DSymVerif.C05
@@ -440,6 +441,29 @@ theorem covers_exactly_the_coverings (ds : DSymData) (hs : ValidSym ds) (hsz : 1
 
 example : ValidSym (DSymData.ofSimple ex2) ∧ (DSymData.ofSimple ex2).view.isConnected = true :=
   ⟨ex2_validSym, by decide +kernel⟩
+
+/-- **finite_universal_cover_trivial_subgroup.**  Whenever the model of `finite_universal_cover(ds)`
+    returns `c`, `c` is the covering (`IsCoverOf`, connected if `ds` is) that belongs to the TRIVIAL
+    subgroup of the fundamental group: it is the cover of a valid coset table (`TableOps`) whose
+    stabiliser of row 0 — the stabiliser of sheet 0 under the sheet action of `c` — is `⊥`
+    (C11 soundness `cosetTable_index`), and its number of sheets is the order of the returned
+    presentation `⟨1..n | relators⟩` (≅ the textbook orbifold group by C09).  By
+    `covers_exactly_the_coverings` (coverings ↔ conjugacy classes of subgroups) this is the universal
+    covering.  (That the model of `fundamental_group` applied to `c` itself returns a presentation
+    of the trivial group is NOT proved — Spec clause.) -/
+theorem finite_universal_cover_trivial_subgroup (ds : DSymData) (hs : ValidSym ds) (hsz : 1 ≤ ds.size)
+    (hdim : 1 ≤ ds.dim) (c : DSymData) (hc : finiteUniversalCover ds = .ok c) :
+    ∃ (f : FundGroup) (t : Cosets.Table) (v : List (List Int))
+      (hv : CosetP.Valid (CosetInvP.viewTab v) f.nrGenerators f.relators []),
+      fundamentalGroup ds = .ok f ∧ cosetTable f.nrGenerators f.relators [] = .ok t ∧ t.view = .ok v ∧
+      IsCoverOf ds c (CosetInvP.viewTab v).size ∧
+      TableOps ds c f.edgeToWord (CosetInvP.viewTab v) f.nrGenerators ∧
+      CosetP.stab0 hv = ⊥ ∧
+      (CosetInvP.viewTab v).size = Nat.card (PresentedGroup (CosetP.relSet f.nrGenerators f.relators)) :=
+  finiteUniversalCover_trivial_subgroup hs hsz hdim hc
+
+example : ValidSym (DSymData.ofSimple ex2) ∧ 1 ≤ (DSymData.ofSimple ex2).size ∧
+    1 ≤ (DSymData.ofSimple ex2).dim := ⟨ex2_validSym, by decide, by decide⟩
 
 /-- every fibre of the projection of an `n`-sheeted cover has exactly `n` chambers -/
 theorem cover_fibres (sz b n : Nat) (hb1 : 1 ≤ b) (hb2 : b ≤ sz) :
